@@ -83,7 +83,9 @@ Clauses(r) ==
   \cup (IF r.model_pre # r.model_post THEN {"model_unchanged"} ELSE {})
   ELSE IF r.outcome # "ok" THEN {"unexpected_exception"} \cup (IF r.model_pre # r.model_post THEN {"model_unchanged"} ELSE {})
   ELSE
-       (IF Len(r.rows) # SxRowCount(r.cfg.method, r.cfg.n, r.cfg.P) THEN {"row_count"} ELSE {})
+       \* every sample() call on the sampler object returns its (rounded-up) number of rows
+       (IF Len(r.rows) # SxRowCount(r.cfg.method, r.cfg.n, r.cfg.P)
+                         + (r.cfg.rounds - 1) * SxRowCount(r.cfg.method, r.cfg.n2, r.cfg.P) THEN {"row_count"} ELSE {})
   \cup (IF r.cols # ColTokens(r.cfg.fluxes) THEN {"columns"} ELSE {})
   \cup (IF \E i \in 1..Len(r.rows) : SxInPolytope(X, r.rows[i], r.cfg.fluxes) = "no" THEN {"rows_feasible"} ELSE {})
   \cup (IF r.digest # r.digest2 \/ r.outcome2 # "ok" THEN {"same_seed_same_samples"} ELSE {})
@@ -101,6 +103,7 @@ VarBatch(r) == {T.probes[i].vars : i \in {k \in 1..Len(T.probes) : Asked(r.pv[k]
 CodeSet(code) == {code[i] : i \in 1..Len(code)}
 CommonTags(r) ==
      {r.cfg.method}
+  \cup (IF r.cfg.rounds > 1 THEN {"several_calls_on_one_sampler"} ELSE {})
   \cup (IF Len(X.U) > 0 THEN {"has_user_rows"} ELSE {})
   \cup (IF \E i \in 1..Len(X.U) : IsIneq(X.U[i]) THEN {"has_user_inequality_row"} ELSE {})
   \cup (IF X.hasz THEN {"has_user_variable"} ELSE {})
